@@ -12,7 +12,7 @@ def run(tier, seed):
     vlib.tlc_check(chk, "H_Fault failure atomicity, exhaustive (conservation of units, FailAtomic, retry)", os.path.join(SPEC, "H_FaultMC.tla"),
                    os.path.join(SPEC, "H_FaultMC.cfg"), timeout=600)
     optsets = [("cold=%d" % c, "nes=%d" % n, "ext=%d" % x) for c in (0, 1) for n in (0, 1) for x in (0, 1)]
-    done, abnormal = vlib.history_check(chk, "d_fault", ["ops"], "H_Fault", quick, seed, nseeds_quick=52 * 5, nseeds_thorough=52 * 40, optsets=optsets, free_runs=0,
+    done, abnormal = vlib.history_check(chk, "d_fault", ["ops"], "H_Fault", quick, seed, nseeds_quick=53 * 5, nseeds_thorough=53 * 40, optsets=optsets, free_runs=0,
                                         what="a call under an injected allocation / OS-resource failure crashed, failed without a failing request, "
                                              "handed out a handle, changed what the API shows, left memory behind, or its retry / the follow-up workload failed",
                                         env={"ABTV_BUDGET": "8000000"})
